@@ -80,8 +80,16 @@ def message_cases(draw, cells):
     ec = R.full(R.DEFAULT_EC)
     lines = draw(G.instance_lines(v, m, tree, ec, conforming=True, p_opt=1))
     flags = []
+    order_ok = G.eligible(v, m, tree)
+    for _ in range(draw(st.sampled_from([0, 0, 0, 1, 2]))):
+        # locally defined segments: accepted at any place by both levels; they have no place in the structure, so STRICT
+        # (structure order) may encode them elsewhere than TOLERANT (creation order): lines compared as a multiset
+        z = R.enc_segment(draw(st.sampled_from(['ZXX', 'ZA1'])), {1: draw(S.textual_leaf(v, ec, 1)), 3: draw(S.textual_leaf(v, ec, 2))}, ec)
+        lines.insert(draw(st.integers(1, len(lines))), z)
+        flags.append('z-segment')
+        order_ok = False
     return {'kind': 'message', 'v': v, 'm': m, 'text': '\r'.join(lines), 'order': draw(st.sampled_from(['strict-first', 'tolerant-first'])),
-            'flags': flags, 'compare_order': G.eligible(v, m, tree)}
+            'flags': flags, 'compare_order': order_ok}
 
 
 def _parse(case, level):
